@@ -13,7 +13,8 @@ RULE = (
     "real searches: word universes (18 start classes + 5 with a single non-empty extension x 22 packs incl. symmetries, "
     "inferral, factories with ready and foreign-parent rules, non-atom verification, iterative, one-way unary rules, and "
     "the example's expansion strategy declared one-way x 4 rule databases x expand_verified/smallest x random "
-    "proof-tree seeds) and random table universes (integer classes, table-driven strategies). Per search that "
+    "proof-tree seeds) and random table universes (integer classes, table-driven strategies, x 4 rule databases x "
+    "expand_verified; `smallest` is never set there). Per search that "
     "announces a specification: (1) for the pruning databases the real SpecificationRuleExtractor runs with recorded "
     "set order and find_path answers and its dictionary is compared with the model; (2) its rules() - every "
     "_find_rule call, on the class database as it is then, over the real stores (dicts of RuleDB / RecomputingDict) - "
@@ -21,13 +22,23 @@ RULE = (
     "(as it is / equivalence form / reverse / equivalence form reversed), strategy, classes, is_equivalence(), the "
     "exception if any, labels allocated; (3) the real CombinatorialSpecification(root, rules) (group_equiv=True, as "
     "get_specification builds it; table universes too: their classes have what the constructor needs) is compared "
-    "with the model: exception or rules_dict as a map class -> (plain / path / lazily added empty rule, children, "
-    "members of a path with their identity), the set of labelled classes, rules_dict after _ungroup_equiv_path, and "
-    "whether the hypotheses of the grouping theorems hold (decided by the model's wf_inputb and independently in "
-    "Python); the same for the rules in reverse order and for the rules with one rule left out; (4) for every "
+    "with the model, every rule being sent with the shifts it DECLARES (list(rule.shifts()); table universes: the "
+    "derived forms EquivalenceRule / reverse of it get the original rule's shifts restricted to the surviving child, "
+    "because a table strategy reads its shifts by class - see _sent_shifts): exception or rules_dict as a map class "
+    "-> (plain / path / lazily added empty rule, children, members of a path with their identity), the set of "
+    "labelled classes, rules_dict after _ungroup_equiv_path, whether the hypotheses of the grouping theorems hold "
+    "(wf_inputb) and whether every rule has one shift per child (shifts_okb) - both decided by the model and "
+    "independently in Python -, the forest keys of the finished object [(class, zip(children, rule.shifts()))] with "
+    "an EquivalencePathRule's shifts as the CODE declares them against the model's R1 (sum of the members' shifts; "
+    "table universes: the sum on both sides) and the keys R0 of the ungrouped rules; the same for the rules in "
+    "reverse order and for the rules with one rule left out; (4) for every "
     "returned rule set and for the dictionary of the specification object the oracle re-decides closedness, "
-    "one-rule-per-class, genuineness (re-applying the rule's strategy to its parent), productivity (naive Kleene "
-    "iteration over (parent, children, shifts)), that every rule handed in is kept or a member of a path, that path "
+    "one-rule-per-class, genuineness in the weak sense that re-applying the strategy of the BASE rule of every rule to "
+    "its parent gives the same CHILDREN (constructor, parameters, reverse index are not compared), that a derived "
+    "rule of a word universe declares the shifts of the rule(s) it stands for, productivity (naive Kleene iteration "
+    "over (parent, children, shifts)) on the ungrouped rules, on the object's declared keys, on R1 and on R0 with "
+    "equal verdicts (R1 vs R0 is C02_grouping_preserves_productivity), that every rule handed in is kept or a member "
+    "of a path, that path "
     "rules are consistent chains, that ungrouping gives the rules back, that the order of the rules does not matter "
     "and that no empty rule is made up for a non-empty class; the model's table-method verdict on the same keys is "
     "compared with the real TableMethod. Non-trivial: a specification with >= 3 rules was returned; distinct = "
@@ -44,23 +55,38 @@ TRUSTED = [
     "the tabulation of word searches as strategy tables (harness/universes/words_c14.py Tabulator) and the conversion of "
     "rule objects into (class, children, is_equivalence) records: a rule object's is_equivalence() is read off the "
     "real object, not re-derived",
-    "genuineness of the rule OBJECTS (constructor, shifts: re-applying the strategy gives the same children) and "
-    "one-rule-per-class of the returned list are decided per instance by the Python oracle; C02_rules_from_table is "
-    "the theorem at the level of the strategy table",
+    "genuineness of the rule OBJECTS is NOT proved and only weakly checked: per instance the Python oracle re-applies "
+    "the strategy of the base rule of every rule handed out and compares the CHILDREN only (not the constructor, its "
+    "parameters, the index of a reverse rule, nor that the strategy belongs to the pack); one-rule-per-class of the "
+    "returned list is decided per instance by the oracle; C02_rules_from_table is the theorem at the level of the "
+    "strategy table",
+    "table universes: the declared shifts of derived rule forms (EquivalenceRule, reverse of an EquivalenceRule, "
+    "EquivalencePathRule) are SUBSTITUTED by the harness (original rule's shifts restricted to the surviving child / "
+    "sum over the members), because a table strategy reads shifts by class whereas the library's strategy families "
+    "compute them from the children they are handed; the code's own shifts() of derived forms is therefore judged "
+    "on word universes only, where every equivalence rule has shift 0",
 ]
 ASSUMPTIONS = [
     "productivity of specifications found by the pruning databases is decided per returned specification "
-    "(C02_productive_decided), not proved for all universes; C02_grouping_preserves_productivity carries the verdict "
-    "from the rules handed out to the grouped specification (a path rule counted with the SUM of its members' shifts; "
-    "EquivalencePathRule.shifts() itself asks the first member's strategy - 0 for the library's strategy families)",
+    "(C02_productive_decided), not proved for all universes; C02_grouping_preserves_productivity / "
+    "C02_object_keys_pump_iff carry the verdict between the rules handed out and the grouped specification object, a "
+    "path rule being counted with the SUM of its members' shifts; that this sum is what EquivalencePathRule.shifts() "
+    "declares (it asks the first member's strategy for (first class, last children)) is not a theorem: it is "
+    "compared on every real specification object (word universes: 0 = 0, the library's strategy families give every "
+    "equivalence rule shift 0; table universes: substituted, see the trusted base); premises wf_input and "
+    "one-shift-per-child are decided per instance (the count of instances is in extra_checks)",
     "the grouping theorems assume wf_input (closed, one rule per class, equivalence rules unary with a rule for their "
     "child, chains of hidden classes end, every class reachable from the root, the root has a rule or is empty); the "
-    "check decides it on every real rule set (6000+ per quick run): it holds for every word search except the open "
-    "finding, and fails in table universes only for the finding and for cycles of hidden classes (unary rules with "
-    "positive shifts, which the table universes' arbitrary shifts allow and no DisjointUnion strategy has)",
-    "C02_find_rule_total assumes the contracts: truthful emptiness cache (C04_empty_cache_truthful), strategies stored "
-    "as equivalences can be equivalences, two-way entries are reversible, and - for the reversed / equivalence forms - "
-    "that the class the entry ends in is not empty; RuleDBForgetStrategy additionally needs a pack strategy that "
+    "check decides it on every real rule set (6000+ per quick run): it holds for every word search (the finding "
+    "oneway-equivalence-with-empty-sibling, on which it failed, is FIXED in /repo by 398db71), and fails in table "
+    "universes only for cycles of hidden classes (unary rules with positive shifts, which the table universes' "
+    "arbitrary shifts allow and no DisjointUnion strategy has)",
+    "C02_find_rule_total assumes an abstract history (add_hist) and the contracts: truthful emptiness cache, strategies "
+    "stored as equivalences can be equivalences, two-way entries are reversible, and - for the reversed / equivalence "
+    "forms - that the class the entry ends in is not empty; C02_search_find_rule_total discharges the first three for "
+    "runs of the searcher model (C04 composition) from hypotheses on the table (contracts of Searcher/Contracts.v, "
+    "sym_unary, twoway_faithful, cap/reversible of two-way entries); the harness does not check these table hypotheses "
+    "per C02 case (C04's extra_checks count how many table universes satisfy them); RuleDBForgetStrategy additionally needs a pack strategy that "
     "reproduces the rule on a class of the key (C14; refuted otherwise: C02_find_rule_forget_foreign_parent_refuted)",
     "C02_enforce_labels_partial: termination of _enforce_labels within the model's fuel is not proved",
 ]
@@ -95,7 +121,10 @@ def _labels(classes):
 def _key_rules(r):
     """the decomposition rules whose (parent, children, shifts) the productivity analysis sees:
     an equivalence rule stands for its original rule (all children, the empty ones become
-    verified leaves), an equivalence path for each of its steps"""
+    verified leaves), an equivalence path for each of its steps.
+    (This SUBSTITUTES the rules a derived form stands for and so never looks at the shifts the derived form
+    declares itself; those are judged separately: _sent_shifts / _object_productivity, on the keys of the
+    specification object as it is.)"""
     from comb_spec_searcher.strategies.rule import EquivalencePathRule, EquivalenceRule
 
     if isinstance(r, EquivalencePathRule):
@@ -193,6 +222,79 @@ def _counting_spec_class(limit):
     return CountingSpec
 
 
+def _is_table(rule):
+    """rule of a table universe (harness/universes/table.py): its strategy reads shifts from a table BY CLASS"""
+    return hasattr(rule.strategy, "sid")
+
+
+def _sent_shifts(r):
+    """(shifts of a rule as sent to the model and used for the object's forest key, how they were obtained).
+
+    "declared": list(rule.shifts()) - what the code declares (every rule of a word universe, of whatever kind:
+    Rule, VerificationRule, ReverseRule, EquivalenceRule, EquivalencePathRule; and the plain / reverse /
+    verification rules of table universes).
+
+    SUBSTITUTED, table universes only (strategy objects with attribute `sid`): the derived forms
+    EquivalenceRule, ReverseRule of an EquivalenceRule and EquivalencePathRule do not override shifts(); it is
+    AbstractRule.shifts = strategy.shifts(comb_class, children) for a (class, children) pair the strategy
+    never produced.  The library's strategy families compute shifts from the children they are given
+    (DisjointUnionStrategy: 0 per child), a table strategy reads its table by CLASS and answers with the
+    shifts of the original rule of that class (all its children), of another rule of the class, or raises.
+    There the original rule's shifts restricted to the surviving child are sent ("table-equivalence"), the
+    ReverseRule formula applied to those ("table-reverse-of-equivalence"), and for a path the sum of its
+    members' ("table-path") - an artefact of the table universes, not of the code.  ("table-reverse-of-equivalence"
+    has not been observed in the quick tier: the pruning extractor reverses unary table rules directly.)
+
+    Who reads shifts() of a derived form in the library: only forest_key() - RuleDBForest.add on the rules
+    expand_comb_class seeds (EquivalenceRule, reverse of it; an EquivalencePathRule is ungrouped first) and
+    ForestRuleExtractor.rules(cache).  get_terms / generation never read it (a path rule counts with its own
+    DisjointUnion constructor).  A wrong declared shift could therefore change a forest productivity verdict
+    during expand_verified, never a count; EquivalencePathRule.shifts() itself is read by nothing in the
+    library."""
+    from comb_spec_searcher.strategies.rule import EquivalencePathRule, EquivalenceRule, ReverseRule
+
+    if _is_table(r):
+        if isinstance(r, EquivalencePathRule):
+            return [sum((_sent_shifts(m)[0] or [0])[0] for m in r.rules)], "table-path"
+        if isinstance(r, EquivalenceRule):
+            osh = _sent_shifts(r.original_rule)[0]
+            return [osh[r.child_idx]], "table-equivalence"
+        if isinstance(r, ReverseRule) and isinstance(r.original_rule, EquivalenceRule):
+            osh = _sent_shifts(r.original_rule)[0]
+            pshift = -osh[r.idx]
+            return [pshift] + [s + pshift for i, s in enumerate(osh) if i != r.idx], "table-reverse-of-equivalence"
+    return list(r.shifts()), "declared"
+
+
+def _stands_for_shifts(r):
+    """the shifts a derived rule SHOULD declare, computed from the rule(s) it stands for (None: not derived):
+    EquivalenceRule: the original rule's shift of the surviving child; EquivalencePathRule: the sum of its
+    members' shifts (what C02_grouping_preserves_productivity counts it with)"""
+    from comb_spec_searcher.strategies.rule import EquivalencePathRule, EquivalenceRule
+
+    if isinstance(r, EquivalencePathRule):
+        tot = 0
+        for m in r.rules:
+            sh = _sent_shifts(m)[0]
+            if len(sh) != 1:
+                return None
+            tot += sh[0]
+        return [tot]
+    if isinstance(r, EquivalenceRule):
+        osh = _sent_shifts(r.original_rule)[0]
+        if r.child_idx >= len(osh):
+            return None
+        return [osh[r.child_idx]]
+    return None
+
+
+def _raw_shifts(r):
+    try:
+        return list(r.shifts())
+    except Exception as e:  # pylint: disable=broad-except
+        return type(e).__name__
+
+
 def _rule_entry(lab, tags, cls_, rule):
     from comb_spec_searcher.strategies.rule import EquivalencePathRule, VerificationRule
     from comb_spec_searcher.strategies.strategy import EmptyStrategy
@@ -226,6 +328,17 @@ def _spec_observation(root, rules, lab=None):
     enc_rules = []
 
     unconverted = {"oneway": 0, "twoway": 0}
+    sent_how = {}
+    disagree = []          # derived rules whose declared shifts are not those of the rule(s) they stand for
+
+    def judge(r):
+        """declared shifts of a derived rule against the rule(s) it stands for"""
+        want = _stands_for_shifts(r)
+        if want is None:
+            return
+        raw = _raw_shifts(r)
+        if raw != want:
+            disagree.append([type(r).__name__, lab.get(r.comb_class, -1), raw, want, int(_is_table(r))])
 
     def enc(r, tag):
         tags[id(r)] = tag
@@ -235,7 +348,10 @@ def _spec_observation(root, rules, lab=None):
                 unconverted["twoway" if r.is_two_way() else "oneway"] += 1
             except Exception:  # pylint: disable=broad-except
                 unconverted["twoway"] += 1
-        return [lab[r.comb_class], [lab[c] for c in r.children], int(eqv), [], tag]
+        sh, how = _sent_shifts(r)
+        sent_how[how] = sent_how.get(how, 0) + 1
+        judge(r)
+        return [lab[r.comb_class], [lab[c] for c in r.children], int(eqv), [int(x) for x in sh], tag]
 
     for i, r in enumerate(rules):
         if isinstance(r, EquivalencePathRule):
@@ -246,24 +362,27 @@ def _spec_observation(root, rules, lab=None):
             enc_rules.append(enc(r, i) + [[]])
     empties = sorted(lab[c] for c in lab if c.is_empty())
     spec_in = [lab[root], 1, empties, enc_rules]
-    # equivalence rules with several children that were handed out unconverted: the finding (fixed by 398db71) concerned the
-    # ONE-WAY ones only (they come from rule_to_strategy); a two-way one is a defect of another kind
+    # equivalence rules with several children that were handed out unconverted: the finding (fixed by 398db71)
+    # concerned the ONE-WAY ones only (they come from rule_to_strategy); a two-way one is a defect of another kind
     nonunary = unconverted["oneway"] if not unconverted["twoway"] else 0
     info_unconverted = dict(unconverted)
     wf = int(_wf_input(lab[root], set(empties), enc_rules))
+    d0 = _ungrouped(enc_rules)
+    sok = int(all(len(r[3]) == len(r[1]) for r in d0.values()))
     nkids = sum(1 + len(x[1]) for x in enc_rules) + sum(len(x[5]) * 3 for x in enc_rules)
     limit = 40 * (nkids + 4) * (len(lab) + 4)
     cls = _counting_spec_class(limit)
-    info = {}
+    info = {"wf": wf, "shifts_ok": sok, "nonunary": nonunary, "unconverted": info_unconverted,
+            "shifts_sent": sent_how, "shift_disagreements": disagree}
     try:
         spec = cls(root, rules)
     except _Unfinished:
-        return spec_in, [9, [], [], [], wf], {"ctor": "unfinished", "wf": wf, "nonunary": nonunary,
-                                              "unconverted": info_unconverted}
+        info["ctor"] = "unfinished"
+        return spec_in, [9, [], [], [], wf, sok, [], [], 1], info
     except (AssertionError, KeyError, IndexError) as e:
         code = _ctor_error_code(e)
-        return spec_in, [_coarse(code), [], [], [], wf], {"ctor": "%s(%d)" % (type(e).__name__, code), "wf": wf,
-                                                          "nonunary": nonunary, "unconverted": info_unconverted}
+        info["ctor"] = "%s(%d)" % (type(e).__name__, code)
+        return spec_in, [_coarse(code), [], [], [], wf, sok, [], [], 1], info
     for c in spec.rules_dict:
         lab.setdefault(c, len(lab))
     entries = sorted(_rule_entry(lab, tags, c, r) for c, r in spec.rules_dict.items())
@@ -275,12 +394,34 @@ def _spec_observation(root, rules, lab=None):
     spec2._ungroup_equiv_path()  # pylint: disable=protected-access
     ung = sorted(_rule_entry(lab, tags, c, r) for c, r in spec2.rules_dict.items())
     info["ctor"] = "ok"
-    info["wf"] = wf
-    info["nonunary"] = nonunary
-    info["unconverted"] = info_unconverted
     info["problems"] = _spec_problems(lab[root], set(empties), enc_rules, entries)
     info["roundtrip"] = _roundtrip_problems(set(empties), enc_rules, ung)
     info["entries"] = entries
+    # ---- forest keys of the object as it is: (class, zip(children, rule.shifts())) for every rule of rules_dict,
+    #      an EquivalencePathRule with the shifts IT declares (table universes: see _sent_shifts); next to it the
+    #      same keys with a path counted with the SUM of its members' shifts (the model's R1), and the keys of the
+    #      ungrouped rules + lazily added empty rules (the model's R0)
+    r1_code, r1_sum = [], []
+    path_sums = []
+    for c, r in spec.rules_dict.items():
+        kids = [lab[x] for x in r.children]
+        sh, how = _sent_shifts(r)
+        r1_code.append([lab[c], [[k, int(x)] for k, x in zip(kids, sh)]])
+        if isinstance(r, EquivalencePathRule):
+            judge(r)
+            tot = sum((_sent_shifts(m)[0] or [0])[0] for m in r.rules)
+            path_sums.append(int(tot))
+            r1_sum.append([lab[c], [[kids[0], int(tot)]] if len(kids) == 1 else []])
+            if _is_table(r) and _raw_shifts(r) != [tot]:
+                info["table_path_raw_differs"] = info.get("table_path_raw_differs", 0) + 1
+        else:
+            r1_sum.append(r1_code[-1])
+    r0 = [[c, [[k, x] for k, x in zip(r[1], r[3])]] for c, r in d0.items()]
+    r0 += [k for k in r1_sum if k[0] not in d0]
+    info["r1_code"] = sorted(r1_code)
+    info["r1_sum"] = sorted(r1_sum)
+    info["r0"] = sorted(r0)
+    info["path_sums"] = path_sums
     # productivity of what the object holds: an equivalence path counts with each of its steps
     try:
         keys, _ = _spec_keys(list(spec.rules_dict.values()))
@@ -291,7 +432,20 @@ def _spec_observation(root, rules, lab=None):
     info["nlazy"] = sum(1 for e in entries if e[1] == 2)
     info["longest_path"] = max([len(e[4]) for e in entries] or [0])
     info["root_ok"] = spec.root == root and root in spec.rules_dict
-    return spec_in, [0, entries, labels, ung, wf], info
+    return spec_in, [0, entries, labels, ung, wf, sok, sorted(r1_code), sorted(r0), 1], info
+
+
+def _ungrouped(enc_rules):
+    """rules_dict = {rule.comb_class: rule ...} followed by _ungroup_equiv_path, on the encoded rules"""
+    d = {}
+    for r in enc_rules:
+        d[r[0]] = r
+    new = {}
+    for r in list(d.values()):
+        for m in r[5]:
+            new[m[0]] = m + [[]]
+    d.update(new)
+    return d
 
 
 def _spec_problems(root, empties, enc_rules, entries):
@@ -403,8 +557,8 @@ def _wf_input(root, empties, enc_rules):
 
 # ---------------------------------------------------------------- SpecificationRuleExtractor._find_rule / rules()
 def _convert_flag():
-    """does rules() hand out unconverted equivalence rules in their equivalence form (the repair proposed in
-    findings/oneway_equivalence_with_empty_sibling.patch.diff)?  Read off the source, or forced by the environment."""
+    """does rules() hand out unconverted equivalence rules in their equivalence form (the repair of
+    findings/oneway_equivalence_with_empty_sibling.patch.diff, applied to /repo as 398db71)?  Read off the source, or forced by the environment."""
     import inspect
     import os
 
@@ -547,9 +701,10 @@ def impl(case):
     res = runs.search(case, build_spec=False)
     css = res["css"]
     out = {"found": res["rules"] is not None, "extract": None, "speckeys": [], "problems": [],
+           "is_table": case["kind"] == "table",
            "extraction_error": res.get("error")}
     ext_out = [9, [], 0, 0]
-    spec_out = rev_out = cut_out = [-1, [], [], [], 0]
+    spec_out = rev_out = cut_out = [-1, [], [], [], 0, 0, [], [], 1]
     if res["extractor"] is not None:
         ex = res["extractor"]
         ruledb = css.ruledb
@@ -615,6 +770,7 @@ def impl(case):
         # the same rules in reverse order: the result may not depend on the order
         rev_in, rev_out, rev_info = _spec_observation(css.start_class, list(reversed(rules)), lab)
         out["rev_in"] = rev_in
+        out["rev_info"] = rev_info
         out["rev_same"] = (rev_out[0], _untagged(rev_out[1]), rev_out[2]) == (spec_out[0], _untagged(spec_out[1]), spec_out[2])
         # one rule left out (which one: decided by the case): a rule set that is not closed
         if len(rules) >= 2:
@@ -658,8 +814,14 @@ def _untagged(entries):
 def _canon_spec(sp):
     # the constructor: dictionaries are compared as maps (sorted by class), the asserts as one AssertionError
     # (which assert fired is reported in the evidence only); the label ORDER of _enforce_labels is an internal
-    # choice: only the set of labelled classes is compared
-    return [_coarse(sp[0]), sorted(sp[1]), sorted(sp[2]), sorted(sp[3]), sp[4]]
+    # choice: only the set of labelled classes is compared.  Key lists are compared as sets of keys.  The last
+    # field is a model-internal sanity bit: whenever the hypotheses wf_input hold and the constructor finished,
+    # the finished rules_dict must BE the dictionary _group_equiv_in_path left (_set_subrules added nothing) -
+    # then the key lists are literally the R1 d1 / R0 d0 d1 of C02_grouping_preserves_productivity
+    # (Spec/GroupingProdObj.v object_keys_pump_iff); the implementation side always says 1
+    st = _coarse(sp[0])
+    same_ok = 0 if (st == 0 and sp[4] and not sp[8]) else 1
+    return [st, sorted(sp[1]), sorted(sp[2]), sorted(sp[3]), sp[4], sp[5], sorted(sp[6]), sorted(sp[7]), same_ok]
 
 
 def canon_model(mo):
@@ -722,7 +884,6 @@ def oracle(case, res):
                 why = "a word search handed out a rule set outside the hypotheses of the grouping theorems"
                 if info.get("nonunary") and case["ruledb"] in ("base", "forget"):
                     # the constructor happened to get through, the rule set is the one of the finding fixed by 398db71
-                    # (the tag names it; the entry being `fixed`, core does not mask it)
                     why += " [" + KNOWN_NONUNARY + ": %d unconverted equivalence rule(s) with several children]" % info["nonunary"]
                 return why
             fk = info.get("final_keys")
@@ -731,6 +892,11 @@ def oracle(case, res):
                 for p, _ in fk:
                     if not (p in f and f[p] is None):
                         return "class %d of the specification object does not pump (naive least fixed point)" % p
+    # the grouped object judged on the shifts its rules DECLARE (main run, reversed rules, one rule left out)
+    for which in ("spec_info", "rev_info", "cut_info"):
+        why = _object_productivity(case, res.get(which), which)
+        if why:
+            return why
     ci = res.get("cut_info")
     if ci and ci["ctor"] == "ok" and ci.get("problems"):
         # a rule set with one rule left out: the constructor may refuse it (assert) or, when nothing non-empty
@@ -763,13 +929,112 @@ def oracle(case, res):
     return None
 
 
+def _pumping(keys):
+    """the parents of `keys` that pump (naive Kleene iteration, harness/props/c03.py)"""
+    f = naive_lfp([[0, p, kids] for p, kids in keys])
+    return {p for p, _ in keys if p in f and f[p] is None}
+
+
+DERIVED_SHIFTS = "derived-rule-declared-shifts"
+
+
+def _object_productivity(case, info, which):
+    """the specification OBJECT judged on its own forest keys (class, zip(children, rule.shifts())):
+    (1) word universes: a derived rule (EquivalenceRule, EquivalencePathRule) must declare the shifts of the
+        rule(s) it stands for (table universes: their strategies read shifts by class - not judged, counted);
+    (2) the verdict on the declared keys, on the keys with paths counted with the sum of their members' shifts
+        (= the model's R1, compared field by field with the model) and on the ungrouped keys (R0) must be the
+        same for every class with a rule in the object - the second equality is
+        C02_grouping_preserves_productivity whenever its premises hold (wf_input, one shift per child);
+    (3) where a productive rule set is owed (word universes, forest databases) every such class pumps."""
+    if not info or info.get("ctor") != "ok" or "r1_code" not in info:
+        return None
+    word = case["kind"] == "word"
+    if word:
+        for kind, c, raw, want, _t in info.get("shift_disagreements", []):
+            return ("%s of class %d declares shifts %r, the rule(s) it stands for give %r [%s] (%s)"
+                    % (kind, c, raw, want, DERIVED_SHIFTS, which))
+    r1c, r1s, r0 = info["r1_code"], info["r1_sum"], info["r0"]
+    parents = {p for p, _ in r1c}
+    pc, ps, p0 = _pumping(r1c), _pumping(r1s), _pumping(r0) & parents
+    if info.get("wf") and info.get("shifts_ok") and ps != p0:
+        return ("%s: wf_input and one shift per child hold, but grouped keys (paths with summed shifts) pump %r and "
+                "ungrouped keys pump %r: contradicts C02_grouping_preserves_productivity (model or oracle wrong)"
+                % (which, sorted(ps), sorted(p0)))
+    if pc != ps:
+        return ("%s: judged on the shifts the grouped object declares classes %r pump, with paths counted with the "
+                "sum of their members' shifts classes %r pump" % (which, sorted(pc), sorted(ps)))
+    if which != "cut_info" and (word or case["ruledb"].startswith("forest")):
+        for p in sorted(parents - pc):
+            return "class %d of the specification object does not pump on its declared forest keys (%s)" % (p, which)
+    return None
+
+
 KNOWN_NONUNARY = "oneway-equivalence-with-empty-sibling"
 
 
 def finding_match(case, why):
     if KNOWN_NONUNARY in str(why):
         return KNOWN_NONUNARY
+    if DERIVED_SHIFTS in str(why) and case.get("kind") == "word":
+        # no such finding is open: on every real (word) specification seen so far the derived rules declare the
+        # shifts of the rules they stand for (all 0); the tag only makes a future entry of known_findings.json narrow
+        return DERIVED_SHIFTS
     return None
+
+
+def _instances(res):
+    """the constructor runs of a case (main, reversed rules, one rule left out) on which
+    C02_grouping_preserves_productivity is instantiated: wf_input and one-shift-per-child hold (decided by the
+    model's wf_inputb / shifts_okb and independently here) and the constructor finished; model and
+    implementation then agreed on R1 / R0 (or the case is a mismatch)"""
+    for which in ("spec_info", "rev_info", "cut_info"):
+        info = res.get(which)
+        if info and info.get("ctor") == "ok" and info.get("wf") and info.get("shifts_ok") and "r1_code" in info:
+            yield which, info
+
+
+def extra_checks(ctx):
+    """how often the productivity theorem was instantiated on real data (evidence; 0 on a full run = alarm)"""
+    n_inst = n_cases = n_path = n_nonzero = n_word = n_word_path = 0
+    n_ok = n_nosok = n_tbl_raw = n_tbl_path_raw = 0
+    for res, _why, _nt in ctx.impl_res:
+        hit = False
+        for which in ("spec_info", "rev_info", "cut_info"):
+            info = res.get(which)
+            if info and info.get("ctor") == "ok":
+                n_ok += 1
+                n_nosok += not info.get("shifts_ok")
+                n_tbl_raw += sum(1 for d in info.get("shift_disagreements", []) if d[4])
+                n_tbl_path_raw += info.get("table_path_raw_differs", 0)
+        for _which, info in _instances(res):
+            n_inst += 1
+            hit = True
+            sums = info.get("path_sums", [])
+            n_path += bool(sums)
+            n_nonzero += any(sums)
+            if not res.get("is_table"):
+                n_word += 1
+                n_word_path += bool(sums)
+        n_cases += hit
+    ok = n_inst > 0 or len(ctx.impl_res) < 500
+    return [
+        ("C02_grouping_preserves_productivity / C02_object_keys_pump_iff instantiated on %d real constructor runs "
+         "(%d cases)" % (n_inst, n_cases), ok,
+         "premises wf_input and one-shift-per-child decided by the model (wf_inputb, shifts_okb) AND independently in "
+         "Python, constructor finished, model's R1/R0 equal to the real object's declared forest keys; %d finished "
+         "constructor runs in the %d retained cases; %d of them with len(shifts) != len(children) somewhere"
+         % (n_ok, len(ctx.impl_res), n_nosok)),
+        ("instances with an EquivalencePathRule: %d; with a path whose members' shifts sum to non-zero: %d; "
+         "word-universe instances: %d (%d with a path rule)" % (n_path, n_nonzero, n_word, n_word_path), True,
+         "non-zero sums occur in table universes only (arbitrary shifts on DisjointUnion-typed strategies: "
+         "artificial); every equivalence rule of a word universe has shift 0, so there the declared shift of an "
+         "EquivalencePathRule, the sum of its members' shifts and 0 coincide"),
+        ("table-universe derived rules whose raw .shifts() is not that of the rule(s) they stand for: %d "
+         "(EquivalencePathRule in the object: %d)" % (n_tbl_raw, n_tbl_path_raw), True,
+         "not a finding: a table strategy reads its shifts by class, the library's strategy families compute them "
+         "from the children they are given; substituted as documented in _sent_shifts"),
+    ]
 
 
 def nontrivial(case, res):
@@ -811,6 +1076,15 @@ def classify(case, res):
             tags.append("ctor_path_of_2_or_more")
         if info.get("nlazy"):
             tags.append("ctor_lazy_empty_rules")
+        tags.append("ctor_one_shift_per_child:%d" % info.get("shifts_ok", 0))
+        for how in info.get("shifts_sent", {}):
+            tags.append("shifts_sent:" + how)
+        if any(True for _ in _instances(res)):
+            tags.append("productivity_theorem_instantiated")
+        if info.get("ctor") == "ok" and info.get("wf") and info.get("shifts_ok") and any(info.get("path_sums", [])):
+            tags.append("productivity_theorem_instantiated_nonzero_path_sum")
+        if any(d[4] for d in info.get("shift_disagreements", [])):
+            tags.append("table_derived_rule_raw_shifts_differ")
     return tags
 
 
@@ -829,43 +1103,66 @@ TECHNIQUE = (
     "Coq proof (extractor dictionary closed for every set order and path oracle; _find_rule/rules(): genuineness and "
     "totality over the strategy table for both kinds of stores, every failure characterised; "
     "CombinatorialSpecification.__init__: the grouping loop never asserts, terminates within an explicit bound, its "
-    "result is characterised class by class, ungrouping gives the rules back, lazy empty rules are sound, "
-    "productivity is preserved; meaning of the productivity verdict via C03) + replayed correspondence of extractor, "
-    "rules() and constructor with the real code + per-instance oracle"
+    "result is characterised class by class, ungrouping gives the rules back, lazy empty rules are sound; the forest "
+    "keys of the grouped dictionary - a path counted with the sum of its members' shifts - pump the same classes as "
+    "those of the ungrouped rules, instantiated per real rule set through decided premises; meaning of the "
+    "productivity verdict via C03) + replayed correspondence of extractor, rules() and constructor (with the rules' "
+    "declared shifts and the object's forest keys) with the real code + per-instance oracle"
 )
 LEVEL_TEXT = (
-    "24 theorems (Props/C02.v, axiom-free). Extractor: C02_closed (dictionary contains the start label, is closed, "
-    "consists of stored rules and explanation-path steps, for every iteration order and every find_path satisfying "
-    "C06_path). _find_rule/rules() over a strategy table and ANY two stores: C02_rules_from_table(_all) - every rule "
+    "27 theorems (Props/C02.v, axiom-free). Extractor: C02_closed (dictionary contains the start label, is closed, "
+    "consists of stored rules and steps of find_path answers, for every iteration order and every find_path whose "
+    "answers are non-empty lists from the first label to the second - the head/last part of C06_path; that a step is "
+    "a RECORDED edge needs C06_path's other half, which is not imported). _find_rule/rules() over a strategy table and ANY two stores: C02_rules_from_table(_all) - every rule "
     "handed out is strategy(class) of a table entry, its equivalence form (then exactly one non-empty child), the "
     "reverse of a REVERSIBLE entry, or the equivalence form of such a reverse, for the strategy a store handed back for "
-    "the entry's key; C02_find_rule_total - after any sequence of ruledb.add calls made as C04 says the searcher makes "
-    "them, every key of rule_to_strategy, every recorded equivalence edge (both ways when two-way) and every key of "
+    "the entry's key; C02_find_rule_total - after any abstract history add_hist of ruledb.add calls each made under "
+    "add_pre (with kind_ok, twoway_faithful), every key of rule_to_strategy, every recorded equivalence edge (both ways "
+    "when two-way) and every key of "
     "eqv_rule_to_strategy is turned back into a rule filed under exactly that entry (generic version for any stores "
-    "whose lookups reproduce their keys, which C14 proves of RecomputingDict); C02_find_rule_outcomes - every exception "
-    "characterised; the foreign-parent limitation of RuleDBForgetStrategy (open C14 finding) and the finding "
-    "oneway-equivalence-with-empty-sibling (FIXED in /repo by 398db71; the _refuted theorem witnesses the old code, "
-    "convert = false) as machine-checked counterexamples, the repair - /repo as it is, convert = true - as "
-    "C02_repair_converts (+ Spec/FindRuleRepair.v: with it every equivalence rule handed out is unary). Constructor, for every input satisfying wf_input (decidable: C02_wf_decided): "
+    "whose lookups reproduce their keys, which C14 proves of RecomputingDict); C02_search_find_rule_total - the same "
+    "for the RuleDB that ANY run of the C04 searcher model on a pruning database built (composition through "
+    "RuleDB/SearchHist.v, C04_search_gives_add_hist: the history, the truthful emptiness cache and 'strategies in the "
+    "equivalence store can be equivalences' are discharged; what remains are hypotheses on the strategy TABLE: the two "
+    "strategy contracts of Searcher/Contracts.v, unary symmetry rules, no factory item naming a verification strategy, "
+    "two-way entries reversible and of strategies that can be equivalences) - for table universes; a word search is "
+    "such a run only modulo the trusted Tabulator; C02_find_rule_outcomes - every exception "
+    "characterised; the foreign-parent limitation of RuleDBForgetStrategy and the finding fixed by /repo 398db71 (the "
+    "code before the fix: model run with convert=false) as machine-checked counterexamples, the repair - what the code "
+    "does now - as C02_repair_converts (+ Spec/FindRuleRepair.v: with it every equivalence rule handed out is "
+    "unary). Constructor, for every input satisfying wf_input (decidable: C02_wf_decided): "
     "C02_grouping_never_asserts (no assert of _group_equiv_in_path, EquivalencePathRule.__init__, get_rule for ANY "
-    "fuel), C02_grouping_terminates (within group_fuel turns), C02_grouping_result (_is_valid_spec holds, root kept, "
+    "fuel), C02_grouping_terminates (within group_fuel turns), C02_grouping_result (only unfolds the definition of "
+    "`grouped`, the conclusion of the two theorems before: _is_valid_spec holds, root kept, "
     "hidden classes dropped, every other class keeps its rule or becomes the head of a path rule whose members are the "
     "original rules along the chain - C02_path_members_form_a_chain -, every hidden class lies on a path; that it lies "
     "on exactly ONE is false in general: C02_hidden_on_two_paths), C02_group_ungroup_roundtrip, "
     "C02_constructor_never_raises, C02_lazy_empty_sound, C02_set_subrules_only_adds_empty_rules, "
-    "C02_grouping_preserves_productivity (pumping of every class that is not hidden, the root in particular, w.r.t. "
-    "grouped keys iff w.r.t. ungrouped keys), C02_productive_decided (meaning of the per-specification verdict). All "
-    "three models run on every real search and agree with the code."
+    "C02_grouping_preserves_productivity (for d0 satisfying wf_input whose rules declare one shift per child: every "
+    "class that is not hidden, the root in particular, pumps w.r.t. the keys R1 of the grouped dictionary - a path "
+    "counted with the SUM of its members' shifts - iff w.r.t. the keys R0 of the ungrouped rules), C02_shifts_decided "
+    "(that premise is decided by shifts_okb), C02_object_keys_pump_iff (wf_inputb, shifts_okb, a finished executable "
+    "constructor and same_dictb imply that the key lists run_spec prints for a real rule set are such R1 / R0; the "
+    "check compares R1 with the forest keys the real object declares and counts the instances in extra_checks: "
+    "about 18700 constructor runs (main and reversed rule order of about 9400 searches) per quick run, about 6000 of "
+    "them with a path rule and about 2100 with a path whose members' shifts sum to non-zero - the latter in table "
+    "universes only, whose shifts are artificial), C02_productive_decided (meaning of the per-specification verdict). Which model runs where: the "
+    "extractor and _find_rule models run only on searches with a pruning database (base / forget) that announce a "
+    "specification; forest searches exercise the table-method model (run_pumps) and the constructor model only; the "
+    "constructor model runs three times on every search that hands out rules."
 )
 LEVEL_NOTE = (
     "Productivity of pruning-database specifications and genuineness of the rule objects of word universes are instance "
     "checks (DESIGN.md C02); the forest database's guarantees are C11's theorems (its _find_rule is not re-modelled "
     "here). C02_enforce_labels_partial: no KeyError and distinct labels, termination within the fuel unproved. The "
-    "constructor model covers group_equiv=True and False; paths of paths are not modelled. Finding "
-    "oneway-equivalence-with-empty-sibling is FIXED in /repo (398db71: SpecificationRuleExtractor.rules() converts) and "
-    "listed as `fixed` in known_findings.json, so nothing is masked: the harness detects the conversion in the source of "
-    "rules() (or VERIF_C02_CONVERT=1) and runs the model with convert = true on every case (24000 cases, 0 mismatches, "
-    "0 oracle failures); the convert = false branch of the model describes the code before the fix and is exercised by no "
-    "case; a return of the defect is reported as a violation. Trusted: Coq kernel, extraction, "
-    "harness, recorded find_path/set-order replay."
+    "constructor model covers group_equiv=True and False; paths of paths are not modelled. The finding "
+    "oneway-equivalence-with-empty-sibling is FIXED in /repo (398db71, known_findings.json kind `fixed`): the harness "
+    "detects the conversion in the source of rules() (or VERIF_C02_CONVERT=1) and compares the convert=true branch of "
+    "the model only; finding_match masks nothing. No theorem says that the forest keys the code DECLARES for derived "
+    "rule forms (EquivalenceRule.shifts(), EquivalencePathRule.shifts()) are those of the rules they stand for: "
+    "compared per instance, on word universes (all 0); no disagreement found, no finding (shifts() of a derived "
+    "form is read only through forest_key - RuleDBForest.add on the rules expand_comb_class seeds, "
+    "ForestRuleExtractor.rules(cache) - never by get_terms; EquivalencePathRule.shifts() by nothing in the library). "
+    "Trusted: Coq kernel, "
+    "extraction, harness, recorded find_path/set-order replay."
 )
